@@ -30,7 +30,7 @@ ASSUMPTIONS = [
     "indices are compared exactly, utilities with rtol=1e-6/atol=1e-8",
 ]
 PROFILE = {
-    "quick": dict(examples=1600, shards=16, budget_s=80),
+    "quick": dict(examples=2200, shards=16, budget_s=85),
     "thorough": dict(examples=16000, shards=16, budget_s=1100),
 }
 
@@ -57,12 +57,15 @@ def _pool_case(draw):
     kw = {}
     if name.startswith("Parallel"):
         kw["batch_sizes"] = [1]
-    case = draw(gen.pool_case([name], use_alt=True, **kw))
+    case = draw(gen.pool_case([name], use_alt=True, vary_model=True, **kw))
     case["kind"] = "pool"
     if case["task"] == "reg":
         case["enc2"] = "num_m999"
     else:
-        case["enc2"] = draw(st.sampled_from(CLF_ENCODINGS))
+        # str_grow twice: its interesting region (a declared, not yet observed
+        # class name longer than every entry of y that is nevertheless
+        # predicted) is a small part of the cases
+        case["enc2"] = draw(st.sampled_from(CLF_ENCODINGS + ["str_grow"]))
     return case
 
 
